@@ -208,8 +208,11 @@ def run_shard(shard, rec, tier, seed):
         rng = harness.rng_for(seed, ID, shard["name"], i)
         r = i % 20
         if r == 0 or base is None:
-            c = gen.gen_chart(rng, "hostile" if (i // 20) % 2 else "realistic", n_tracks=rng.choice([0, 1, 2]), n_groups=rng.choice([2, 8, 20]),
-                              n_globals=rng.choice([0, 5]), n_tempos=rng.choice([1, 2, 6]), newline="\n")
+            c = gen.gen_chart(rng, "hostile" if (i // 20) % 2 else "realistic", n_tracks=rng.choice([0, 1, 2]), n_groups=rng.choice([2, 8, 20, 20, 150]),
+                              n_globals=rng.choice([0, 5, 40]), n_tempos=rng.choice([1, 2, 6, 6, 13, 40, 200]), newline="\n")
+            # (sizes past small thresholds too: long tempo maps before the first event, long tracks, long event lists)
+            if len(c["truth"]["tempos"]) >= 10:
+                rec.cls("base_chart_with_10+_tempos")
             base = normalise(c["text"])
             judge(rec, base, "unfaulted")
             judge(rec, base, "unfaulted", SELS[(i // 20) % len(SELS)])
